@@ -84,6 +84,8 @@ THEOREMS = [
     "Lena.C08.value_template",
     "Lena.C08.to_string_errors",
     "Lena.C08.context_element",
+    "Lena.C08.jTokens_toJ",
+    "Lena.C08.to_string_raw_keys",
     "Lena.C08.update_keeps_wf",
     "Lena.C08.delete_keeps_wf",
 ]
@@ -99,8 +101,11 @@ TRUSTED = [
     "JSON line protocol encoders (harness/props/c08.py, drivers/C08.lean)",
 ]
 ASSUMPTIONS = [
-    "contexts are built from None, bool, int, str and string-keyed dictionaries; equality of contexts is type-strict (True and 1 "
-    "differ, as they do for to_string)",
+    "contexts are built from None, bool, int, float (by its repr; nan excluded from equality), str, objects of other classes "
+    "(observed only through str()), lists and string-keyed dictionaries; equality of contexts is type-strict (True and 1, 1 and "
+    "1.0 differ, as they do for to_string); dictionaries with other keys exist only in the to_string sub-model JVal",
+    "str() of a container is modelled (repr in insertion order) when its strings are printable ASCII without quotes and "
+    "backslashes; otherwise the model answers 'unmodelled' and only the oracle judges",
     "key paths are lists of non-empty, dot-free keys (WFPath): dotted strings with empty components are documented as undefined; "
     "they are still compared with the model, but the oracle is silent on them",
     "names used in jinja2 fields are not attributes of dict/str/int (items, keys, real, ...) nor jinja2 globals/keywords",
@@ -111,14 +116,20 @@ ASSUMPTIONS = [
 ]
 RULE = ("addr: every context over keys {a,b} of depth <= 2 with leaves {1,'b',None} (400) and - thorough: every, quick: 400 sampled - "
         "context of depth <= 3 with leaves {1,'b'} (21609) x every key path of length 0..4 over {a,b,1} (121) x dotted/list/two "
-        "dictionary notations, with and without default, contains, plus seeded random contexts over {a,b,c,1,None,..} of depth <= 3; "
-        "getx: malformed keys and "
-        "dictionaries; s2d: all dotted strings of <= 4 components over {a,b,''} x values; format: all templates of 0..3 fields "
-        "(paths of length 1..2 over {a,b}) with literals from {'', 'x_', ': !'} x 13 contexts, every string of length <= 6 over "
-        "'{}a.' (thorough <= 7, plus '!:'), non-strings; tostr: families of contexts with every key order and one-step mutants; "
-        "uc: the complete option matrix value x default x skip x raise x recursively x 14 update kinds x 4 subcontexts on 14 "
-        "items; dc: all paths <= 3 over {a,b} in string/list/tuple form; fuw/setctx/upd likewise; seeded random cases of every "
-        "kind. Non-trivial: a present item is returned/rendered/changed, or a documented exception is raised.")
+        "dictionary notations, with and without default, contains, plus seeded random contexts of depth <= 3 with lists, floats "
+        "and objects (str() given or raising) as leaves; getx: malformed keys and dictionaries; s2d: all dotted strings of <= 4 "
+        "components over {a,b,''} x values, non-string arguments; format: all templates of 0..2 (thorough 3) fields (paths of "
+        "length 1..3 over {a,b,c}) with literals from {'', 'x_', ': !'} x 16 contexts (dictionary-, list-, float-valued fields "
+        "included), every string of length <= 6 over '{}a.' (thorough <= 7, plus '!:'), non-strings; tostr: families of contexts "
+        "with every key order and one-step mutants, lists, floats, unserialisable objects; tostrj: dictionaries with int/bool/"
+        "None/float/object keys in all pairs and orders; uc: the complete option matrix value x default x skip x raise x "
+        "recursively x 18 update kinds x 4 subcontexts on 17 items, 14 edge templates ({{ a }}, trailing newline, ...) x options, "
+        "non-string subcontexts; dc: all paths <= 3 over {a,b} in string/list/tuple form, non-string keys; fuw/setctx/upd "
+        "likewise incl. non-string keys; context: Context.__call__/__getattr__/__repr__ on the item set; every case also executes "
+        "the specification-side definitions (WFPath, EntriesWF, Piece.WF, StrFields, renderSpec, templateString, IllFormed, "
+        "NotTemplate, ucSet/delPath/nestPath/subDict, pyStrVal, pyEq) in the driver and compares them with Python references; "
+        "seeded random cases of every kind. Non-trivial: a present item is returned/rendered/changed, or a documented "
+        "exception is raised.")
 CASE_TIMEOUT = 20
 
 MISSING = object()
@@ -2147,8 +2158,8 @@ def shrink(case):
 
 # ---- MANIFEST texts ------------------------------------------------------------------------
 LEVEL_TEXT = ("Lean 4 theorems about a transcribed model of get_recursively/str_to_dict/contains/format_context/to_string/"
-              "update_recursively/format_update_with/UpdateContext/DeleteContext/SetContext over insertion-ordered string-keyed "
-              "dictionaries, for all contexts, key paths, templates and option combinations (no bound); the model is tied to /repo "
+              "update_recursively/format_update_with/UpdateContext/DeleteContext/SetContext/Context over insertion-ordered "
+              "string-keyed dictionaries with lists, floats and foreign objects as values (to_string also over non-string keys), for all contexts, key paths, templates and option combinations (no bound); the model is tied to /repo "
               "by a correspondence check that enumerates small scopes exhaustively (contexts over 2 keys up to depth 3, paths of "
               "length 0..4, three notations, the whole UpdateContext option matrix, all short templates) and samples larger ones, "
               "plus a reference oracle (naive path lookup / set / delete / render) on the real code including observed deep-copy "
